@@ -1,5 +1,5 @@
 (* C04 proofs, part 1: frame lemmas, the affinity invariant, request_legal, no_fatal,
-   no_duplicate (acceptance form), pipe_positive, params. *)
+   no_duplicate (acceptance form), params. *)
 From Coq Require Import NArith List Bool Lia Arith.
 From LTV.C04 Require Import ParamsGen Model.
 Import ListNotations.
@@ -250,16 +250,8 @@ Proof.
   congruence.
 Qed.
 
-(* pipe_positive: RequestList::calculate_pipe_size never returns 0 *)
-Theorem pipe_positive : forall aggr rate, 1 <= calculate_pipe_size aggr rate.
-Proof.
-  intros. unfold calculate_pipe_size. unfold Params.c04_pipe_norm_thresh, Params.c04_pipe_norm_add, Params.c04_pipe_norm_div,
-    Params.c04_pipe_norm_base, Params.c04_pipe_aggr_thresh, Params.c04_pipe_aggr_lo_div, Params.c04_pipe_aggr_lo_add,
-    Params.c04_pipe_aggr_hi_div, Params.c04_pipe_aggr_hi_add.
-  destruct aggr; cbn [negb];
-    repeat match goal with |- context[if ?b then _ else _] => destruct b end;
-    repeat match goal with |- context[?a / ?b] => let x := fresh "x" in generalize (a / b); intro x end; lia.
-Qed.
+Lemma overlapped_pos : 0 < overlapped.
+Proof. unfold overlapped. destruct (Params.c04_overlapped =? 0) eqn:E; [lia|]. apply N.eqb_neq in E. lia. Qed.
 
 Theorem params_ok_now : params_ok = true.
 Proof. vm_compute. reflexivity. Qed.
